@@ -328,14 +328,21 @@ namespace chaiscript {
     }
 
     Boxed_Value boxed_type_conversion(const Type_Info &to, Conversion_Saves &t_saves, const Boxed_Value &from) const {
+      // only the lookup is ours to translate: an exception thrown by the conversion function itself belongs to the user
+      const auto conversion = [&]() {
+        try {
+          return get_conversion(to, from.get_type_info());
+        } catch (const std::out_of_range &) {
+          throw exception::bad_boxed_dynamic_cast(from.get_type_info(), *to.bare_type_info(), "No known conversion");
+        }
+      }();
+
       try {
-        Boxed_Value ret = get_conversion(to, from.get_type_info())->convert(from);
+        Boxed_Value ret = conversion->convert(from);
         if (t_saves.enabled) {
           t_saves.saves.push_back(ret);
         }
         return ret;
-      } catch (const std::out_of_range &) {
-        throw exception::bad_boxed_dynamic_cast(from.get_type_info(), *to.bare_type_info(), "No known conversion");
       } catch (const std::bad_cast &) {
         throw exception::bad_boxed_dynamic_cast(from.get_type_info(), *to.bare_type_info(), "Unable to perform dynamic_cast operation");
       }
